@@ -92,6 +92,7 @@ pub struct RunOutcome<T> {
 }
 
 thread_local! {
+    static DRIVER: RefCell<Option<Rc<SimDriver>>> = const { RefCell::new(None) };
     static LAST_PANIC: RefCell<Option<PanicInfo>> = const { RefCell::new(None) };
     static QUIET_PANIC: std::cell::Cell<bool> = const { std::cell::Cell::new(false) };
 }
@@ -139,6 +140,7 @@ pub fn run_sim<T: Send>(spec: &RunSpec, f: impl FnOnce() -> T + Send) -> RunOutc
                     rng_seed: spec.rng_seed,
                 }));
                 set_driver(Some(driver.clone()));
+                DRIVER.with(|d| *d.borrow_mut() = Some(driver.clone()));
                 QUIET_PANIC.with(|q| q.set(true));
                 sys::sim_begin(&SimParams {
                     hash_seed: spec.hash_seed,
@@ -164,6 +166,7 @@ pub fn run_sim<T: Send>(spec: &RunSpec, f: impl FnOnce() -> T + Send) -> RunOutc
                 sys::sim_end();
                 QUIET_PANIC.with(|q| q.set(false));
                 set_driver(None);
+                DRIVER.with(|d| *d.borrow_mut() = None);
                 let sched = driver.stats();
                 let result = result.map_err(|_| {
                     LAST_PANIC.with(|p| p.borrow_mut().take()).unwrap_or(PanicInfo {
@@ -190,4 +193,10 @@ pub fn run_sim<T: Send>(spec: &RunSpec, f: impl FnOnce() -> T + Send) -> RunOutc
         arena_live,
         arena_used,
     }
+}
+
+/// Gives harness code access to the scheduler of the current simulated run.
+pub fn with_driver<R>(f: impl FnOnce(&SimDriver) -> R) -> Option<R> {
+    let d = DRIVER.with(|d| d.borrow().clone());
+    d.map(|d| f(&d))
 }
